@@ -1472,7 +1472,12 @@ def run(ctx):
     if len(ctx.violations) < 20:
         check_huge(ctx)
     if len(ctx.violations) < 20:
-        check_powerlaw_sample(ctx, gen_powerlaw_cases(ctx) + gen_powerlaw_wide(ctx))
+        # extremely steep exponents: (1 - r) ** (-1 / (alpha - 1)) evaluates to exactly 1.0, every draw sits on the rounding tie
+        # xmin - 1/2 + 1/2 = xmin (odd and even xmin: ties-to-even rounding would give xmin - 1 for odd ones)
+        steep = [(rng_size, xm, al, ctx.rng.randrange(2 ** 31)) for al in (1e6, 1e9, 1e12, 1e15, 1e17, 1e300)
+                 for xm in (1, 2, 3, 7, 50, 51) for rng_size in ((5, 2000) if ctx.quick else (5, 2000, 100000))]
+        ctx.count('powerlaw_sample:steep exponents', len(steep))
+        check_powerlaw_sample(ctx, gen_powerlaw_cases(ctx) + gen_powerlaw_wide(ctx) + steep)
     if len(ctx.violations) < 20:
         check_mle_closed(ctx, gen_mle_cases(ctx) + gen_mle_wide(ctx))
     if len(ctx.violations) < 20:
